@@ -82,6 +82,13 @@ func runC20(t *testing.T, tape *sim.Tape, tier string) *Outcome {
 		} else if withPw && tape.Draw(5, "auth") == 0 {
 			g.Only = []string{"AUTH"}
 		}
+		if g.Only == nil && tape.Draw(12, "oddvalue") == 11 {
+			// a value that is not a command array (empty/null/nested array, null or non-bulk command name, non-array value)
+			v := oddArrays[tape.Draw(len(oddArrays), "odd")]
+			reqs = append(reqs, &wl.Req{Idx: i, Name: "?", Args: []string{"<" + v.String() + ">"}, Bytes: v.Encode(), Class: "odd", SelectDB: -1})
+			o.stat("odd_values", 1)
+			continue
+		}
 		reqs = append(reqs, g.Next(i, cfg.Ill, cfg.Unk))
 		g.Only = nil
 	}
@@ -212,7 +219,7 @@ func init() {
 	register(&Check{
 		ID: "C20", Bubble: true, Run: runC20,
 		Runs:   map[string]int{"quick": 40000, "thorough": 1500000},
-		Rule:   "a case is one (pipeline, stream-end fault, delivery schedule) triple: pipelines as in C03 (every command, valid/ill-formed/unknown, QUIT, AUTH, unauthorized state with a required password, injected handler errors) x {FIN after the last request, FIN at a request boundary, FIN inside a request, RST, corrupted frame, client gone before reading so that reply writes fail} x seeded chunking/batching; the span-nesting invariant is evaluated at every tracer, handler and reply-write event; distinct = distinct (config, end mode, cut, chunk sequence) signatures; non-trivial = stream-end fault or chunked delivery",
+		Rule:   "a case is one (pipeline, stream-end fault, delivery schedule) triple: pipelines as in C03 plus values that are not command arrays (empty, null and nested arrays, null or non-bulk command names, non-array values) (every command, valid/ill-formed/unknown, QUIT, AUTH, unauthorized state with a required password, injected handler errors) x {FIN after the last request, FIN at a request boundary, FIN inside a request, RST, corrupted frame, client gone before reading so that reply writes fail} x seeded chunking/batching; the span-nesting invariant is evaluated at every tracer, handler and reply-write event; distinct = distinct (config, end mode, cut, chunk sequence) signatures; non-trivial = stream-end fault or chunked delivery",
 		Real:   []string{"redis.Server connection loop and dispatch with a tracer installed", "go-tracing span stack (tracer/common)"},
 		Stub:   []string{"tracer: recording tracer.Tracer/Span double", "transport: simulated net.Conn", "handler: recording double"},
 		Assume: []string{"the loop's extra iteration that meets end of stream may open and close a root span of its own"},
